@@ -1,6 +1,7 @@
 import PebblesVerif.Gen.SubProto
 import PebblesVerif.Model.SubProtoFixed
 import PebblesVerif.Model.ConnWrite
+import PebblesVerif.Model.SubInit
 /-! From the regenerated facts of the source to the parameters of the teardown models: which
 protocol the tree has (unchanged / repaired / something else) and, for the repaired shape,
 which of the structural facts its safety rests on still hold (`Knobs`). -/
@@ -18,5 +19,24 @@ def knobsOf (f : Facts) : SubProtoFixed.Knobs :=
 
 /-- are all frame writes on the client connection made under the write mutex? -/
 def writesLocked (f : Facts) : Bool := f.rawWrites.isEmpty && !f.lockedWriters.isEmpty
+
+/-! ### the establishment phase of `Subscribe` (Model/SubInit.lean) -/
+
+/-- the statement sequence both variants of Model/SubInit.lean share: `errCh` is unbuffered, closed
+    once by `Subscribe`'s own `defer`, received from once by `Subscribe`; the reader marshals and
+    writes `connection_init`, then `start`, every failure branch ends in `return`, then
+    `errCh <- nil` and the read loop; the closer waits, then closes the upstream connection -/
+def initRecognised (f : Facts) : Bool :=
+  f.recognised && f.errChan == expectedFixed.errChan
+    && (f.initSteps == expectedFixed.initSteps || f.initSteps == expectedCurrent.initSteps)
+    && (f.closerBody == expectedFixed.closerBody || f.closerBody == expectedCurrent.closerBody)
+    && (f.readerExit == expectedFixed.readerExit
+        || f.readerExit == ["defer recover", "conn.Close", "send(nil)"]
+        || f.readerExit == expectedCurrent.readerExit)
+
+/-- which variant of Model/SubInit.lean the tree has: `repaired` iff a failed establishment
+    closes `failedCh` before reporting the error and BOTH goroutines select on `failedCh` -/
+def initVariant (f : Facts) : SubInit.Variant :=
+  if f.initFailureReleasesGoroutines then .repaired else .preRepair
 
 end PebblesVerif.SubProtoFacts
